@@ -122,6 +122,42 @@ type decodeEv struct {
 	VRet Ret              `json:"vret"`
 	Hex  string           `json:"hex,omitempty"`
 	Dev  []string         `json:"dev"`
+	// after the call: two fixed conformant tokens (one per built-in profile) are still accepted, by the right
+	// implementation, with the same values - what is accepted does not depend on earlier calls
+	ProbeOK bool `json:"probeOK"`
+}
+
+type probeTok struct {
+	buf  []byte
+	impl string
+	obj  Obj
+}
+
+var cborProbes []probeTok
+
+func setCBORProbes(cc Conc, d *domains) {
+	cborProbes = nil
+	for _, p := range []string{"P1", "P2"} {
+		buf := cc.DocCBOR(d.base(p, "minimal"))
+		c, err := psatoken.DecodeAndValidateClaimsFromCBOR(append([]byte{}, buf...))
+		if err != nil {
+			fatal("probe token %s: %v", p, err)
+		}
+		cborProbes = append(cborProbes, probeTok{buf, implName(c), AbsClaims(c)})
+	}
+}
+
+func probesOK() bool {
+	ok := true
+	for _, pt := range cborProbes {
+		c, err, pan := guardDec(func() (psatoken.IClaims, error) {
+			return psatoken.DecodeAndValidateClaimsFromCBOR(append([]byte{}, pt.buf...))
+		})
+		if pan || err != nil || c == nil || implName(c) != pt.impl || !jsonEq(AbsClaims(c), pt.obj) {
+			ok = false
+		}
+	}
+	return ok
 }
 
 func guardDec(f func() (psatoken.IClaims, error)) (c psatoken.IClaims, err error, panicked bool) {
@@ -179,6 +215,7 @@ func observeDecodeCBOR(b int, src string, buf []byte, reg []regEntry) (decodeEv,
 	if len(buf) <= 400 {
 		ev.Hex = hexs(buf)
 	}
+	ev.ProbeOK = probesOK()
 	return ev, c, true
 }
 
@@ -191,6 +228,7 @@ func init() {
 		reg := currentReg()
 		t := NewTracer(a.Out)
 		cc := Conc{a.Rand()}
+		setCBORProbes(cc, d)
 		b := 0
 		skipped := 0
 		bysrc := map[string]int{}
@@ -424,6 +462,35 @@ type decodeJSONEv struct {
 	VRet Ret              `json:"vret"`
 	Outs []string         `json:"outs"`      // distinct dispatch outcomes over repeated calls (Go map order)
 	Fold bool             `json:"foldAlias"` // some member name equals a known one only up to case folding (no value verdict)
+	// after the call: two fixed conformant documents are still accepted by the right implementation with the same values
+	ProbeOK bool `json:"probeOK"`
+}
+
+var jsonProbes []probeTok
+
+func setJSONProbes(cc Conc, d *domains) {
+	jsonProbes = nil
+	for _, p := range []string{"P1", "P2"} {
+		buf := cc.DocJSON(d.base(p, "minimal"))
+		c, err := psatoken.DecodeAndValidateClaimsFromJSON(append([]byte{}, buf...))
+		if err != nil {
+			fatal("probe document %s: %v", p, err)
+		}
+		jsonProbes = append(jsonProbes, probeTok{buf, implName(c), AbsClaims(c)})
+	}
+}
+
+func jsonProbesOK() bool {
+	ok := true
+	for _, pt := range jsonProbes {
+		c, err, pan := guardDec(func() (psatoken.IClaims, error) {
+			return psatoken.DecodeAndValidateClaimsFromJSON(append([]byte{}, pt.buf...))
+		})
+		if pan || err != nil || c == nil || implName(c) != pt.impl || !jsonEq(AbsClaims(c), pt.obj) {
+			ok = false
+		}
+	}
+	return ok
 }
 
 // jsonDesc renders a descriptor of spec/Gen_Json.tla as JSON text.
@@ -519,6 +586,7 @@ func init() {
 		reg := currentReg()
 		t := NewTracer(a.Out)
 		cc := Conc{a.Rand()}
+		setJSONProbes(cc, d)
 		b := 0
 		emit := func(src string, doc []byte) {
 			tree, ok := parseJSONDoc(doc)
@@ -546,6 +614,7 @@ func init() {
 					ev.Outs = append(ev.Outs, o)
 				}
 			}
+			ev.ProbeOK = jsonProbesOK()
 			t.Emit(ev, true, !ev.Val.OK)
 			b++
 		}
